@@ -204,6 +204,9 @@ def restart_indexing(fmt: str = "amberrst7", n_frames: int = 3, cell: bool = Tru
     S.new_ctx(timeout_ms=30000)
     F, N = n_frames, 2
     t = _traj(F, N, cell)
+    if cell:
+        # every frame has its OWN angles (a cell that changes shape): file k must get frame k's
+        t._unitcell_angles = np.array([[90.0 - 2 * f, 80.0 + f, 70.0 + 3 * f] for f in range(F)], dtype=np.float64)
     real = getattr(_tr, CLASS_OF[fmt])
     Rec, calls = _recorder(real)
     setattr(_tr, CLASS_OF[fmt], Rec)
@@ -234,6 +237,8 @@ def restart_indexing(fmt: str = "amberrst7", n_frames: int = 3, cell: bool = Tru
                 cl = np.asarray(kw["cell_lengths"], dtype=object).reshape(-1)
                 for c in range(3):
                     G.add(f"file{k}.cell_lengths[{c}]", bounds, S.close(cl[c], tz(Lh[k, c]) * 10, z3.RealVal("1/1000000000"), z3.RealVal("1/1000000000")), {})
+                ca = np.asarray(kw["cell_angles"], dtype=object).reshape(-1)
+                G.add(f"file{k}.cell_angles", [], z3.BoolVal([float(v) for v in ca] == [90.0 - 2 * k, 80.0 + k, 70.0 + 3 * k]), {})
             else:
                 G.add(f"file{k}.no_cell", [], z3.BoolVal(kw.get("cell_lengths") is None and kw.get("cell_angles") is None), {})
     r = G.run(_replay("restart", fmt, cell, False, F))
@@ -368,6 +373,8 @@ xyz = (np.arange(F * N * 3, dtype=np.float32).reshape(F, N, 3) * 0.125 + 0.25)
 times = np.array([1.0, 2.5, 7.0, 7.5, 11.0, 12.0, 14.5, 20.0, 21.0, 30.0, 31.5][:F])
 L = np.array([[2.0 + (0 if fmt == "pdb" else f), 3.0 + (0 if fmt == "pdb" else f), 4.5 + (0 if fmt == "pdb" else f)] for f in range(F)]) if cell else None   # (PDB holds a single CRYST1 record)
 A = np.array([[80.0, 100.0, 70.0] if tri else [90.0] * 3] * F) if cell else None
+if cell and kind == "restart":
+    A = np.array([[90.0 - 2 * f, 80.0 + f, 70.0 + 3 * f] for f in range(F)])      # a cell that changes shape from frame to frame
 d = tempfile.mkdtemp(prefix="c01r_")
 bad = []
 def _hook(tp, v, tb):
